@@ -177,61 +177,14 @@ def scenario(it, facts, body, inst):
 
 
 def check_dispatch(repo, res, facts):
+    from .. import api_model
     ev = repo.method('supp/evaluator.py', 'EvalCtx', '_evaluate')
-    chain = [s for s in ev.body if isinstance(s, ast.If)]
-    if len(chain) != 1:
-        raise AnalysisError('_evaluate: expected one if/elif chain')
-    branches = []
-    n = chain[0]
-    while True:
-        branches.append((n.test, n.body))
-        if len(n.orelse) == 1 and isinstance(n.orelse[0], ast.If):
-            n = n.orelse[0]
-        else:
-            break
-    ast_alias = {'AstName': 'ast.Name', 'Attribute': 'ast.Attribute', 'Call': 'ast.Call', 'Constant': 'ast.Constant',
-                 'Str': 'ast.Str', 'Bytes': 'ast.Bytes'}
-
-    def matches(test, cname):
-        t = unparse(test)
-        if isinstance(test, ast.Compare) and unparse(test.left) == 'node_type' and isinstance(test.ops[0], ast.Is):
-            target = unparse(test.comparators[0])
-            return ast_alias.get(target, target) == cname
-        if isinstance(test, ast.Call) and unparse(test.func) == 'isinstance' and unparse(test.args[0]) == 'node':
-            target = unparse(test.args[1])
-            ci = facts.classes.get(cname)
-            if ci is None:
-                return False
-            return any(c.name == target for c in ci.mro())
-        raise AnalysisError('_evaluate: unrecognised dispatch test `%s`' % t)
-
-    candidates = {'ast.Name': 'names_at', 'ast.Attribute': 'get_attr', 'ast.Call': '.call(', 'ast.Constant': 'RuntimeName(',
-                  'AssignedName': 'value_node', 'ImportedName': 'self.evaluate(node.resolve(', 'MultiName': 'CompositeValue('}
-    for c in facts.classes.values():
-        names = [k.name for k in c.mro()]
-        if c.name in candidates or c.name in ('Resolvable', 'Object', 'Callable', 'Name'):
-            continue
-        if 'Resolvable' in names:
-            candidates[c.name] = 'node.resolve('
-        elif 'Object' in names:
-            candidates[c.name] = 'return node'
-    nd = 0
-    for cname, marker in sorted(candidates.items()):
-        hit = None
-        for test, body in branches:
-            if matches(test, cname):
-                hit = body
-                break
-        nd += 1
-        txt = unparse(ast.Module(body=hit, type_ignores=[])) if hit else '(no branch)'
-        res.check('C06-R3', '_evaluate(%s)' % cname, hit is not None and marker in txt, 'supp/evaluator.py', ev.lineno,
-                  'a %s handed to EvalCtx.evaluate reaches the branch `%s`; it must be handled by the branch containing `%s` '
-                  '(the chain is order sensitive)' % (cname, txt.replace('\n', '; ')[:60], marker),
-                  sample='_evaluate(%s) -> %s' % (cname, marker))
+    nd = api_model.apply(res, api_model.evaluate_model(repo), {'dispatch': 'C06-R3', 'dispatch-count': 'C06-R3'},
+                         'supp/evaluator.py', ev.lineno)
     res.count('dispatch_candidates', nd, floor=18)
     decl = repo.method('supp/evaluator.py', 'EvalCtx', 'declarations')
-    t = unparse(decl)
-    order = [t.find(x) for x in ('node_type is AstName', 'node_type is MultiName', 'node_type is MultiValue',
-                                 'node_type is Attribute', 'node_type is ImportedName')]
-    res.check('C06-R3', 'declarations dispatch', all(o >= 0 for o in order), 'supp/evaluator.py', decl.lineno,
-              'declarations must handle Name, MultiName, MultiValue, Attribute and ImportedName explicitly')
+    api_model.apply(res, api_model.declarations_model(repo), {'single': 'C06-R3', 'chain': 'C06-R3', 'alts': 'C06-R3'},
+                    'supp/evaluator.py', decl.lineno)
+    api_model.apply(res, [r for r in api_model.assist_model(repo) if 'attribute branch' in r[1]], {'source': 'C06-R3'},
+                    'supp/assistant.py', 0)
+    api_model.apply(res, api_model.location_model(repo), {'asks': 'C06-R3', 'import': 'C06-R3'}, 'supp/assistant.py', 0)
